@@ -33,7 +33,11 @@ def scenario_init():
 def scenario(params, ch):
     direction, msgs, macro, order, latency, blackout = params
     mon = DeliveryMonitor(check_dup_datagram=True)
-    w = World(order=order, latency=latency, chooser=ch, monitors=[mon])
+    opts = order.split("|")[1:]     # "cs|dt60": 60 Hz frames; "cs|ka0.5": keep-alive (= resend delay) 0.5 s on both ends
+    order = order.split("|")[0]
+    ka = next((float(o[2:]) for o in opts if o.startswith("ka")), None)
+    w = World(order=order, latency=latency, chooser=ch, monitors=[mon], dt=(1.0 / 60 if "dt60" in opts else 1.0 / 64),
+              server_cfg=({"setKeepAliveInterval": ka} if ka else None), client_cfg=({"setKeepAliveInterval": ka} if ka else None))
     sender = direction[0]
     try:
         w.run_until_connected()
@@ -125,6 +129,10 @@ def params_list(tier):
             for macro in ("none", "idle4", "burst"):
                 for order, latency in configs:
                     out.append((direction, msgs, macro, order, latency, 0))
+            if any(r != "none" for _, r in msgs):
+                for o in (("cs|dt60", "cs|ka0.5") if tier == "quick" else ("cs|dt60", "sc|dt60", "cs|ka0.5")):
+                    out.append((direction, msgs, "none", o, 1, 0))
+                    out.append((direction, msgs, "none", o, 1, 100))
             # round trip longer than the resend interval: retry modes put the message into several datagrams
             if any(r != "none" for _, r in msgs):
                 for lat in ((8,) if tier == "quick" else (8, 20)):
